@@ -76,8 +76,14 @@ struct GridRec {
 static vh::Stats st;
 static bool g_verbose = false;
 static bool g_nofork = false; // debugging aid: run the construction in this process
-static uint64_t g_slowcap = 400; // largest generator count of the families on which the new construction is O(n^2) (coplanar, cospherical)
+// Only uniform and perturbed-lattice sets cost O(n) (2.4 CPU s for 2000 generators).  Wherever cells span a large part of the box
+// (coplanar, cospherical, tight blobs, slab lattices, generators on the walls only) the new construction is quadratic: measured
+// 156 s (cospherical) and 57 s (1x7x196 lattice) for 2000 / 1372 generators.  Those families are capped in size, and their watchdog is
+// quadratic as well, so that a slow but correct construction is never reported as a hang.
+static uint64_t g_slowcap = 400;
+static uint64_t g_wallcap = 150; // wall family: its genuine hangs are frequent, each costs a full watchdog
 static double g_cpu_factor = 1.;  // watchdog scale (sanitizer builds are slower)
+static int g_selftest = 0;      // oracle self-test: corrupt the data returned by the real code before judging it (see --selftest)
 static double g_xparam = 0.;  // exploration aid: overrides sigma / amplitude / wall distance
 
 // ---------------------------------------------------------------------------
@@ -145,7 +151,10 @@ static void make_case(Case &c, uint64_t id, uint64_t idx, vh::Rng r, uint64_t fo
     else if (u < 0.85) n = (uint64_t)rsize.range(13, 300);
     else n = (uint64_t)rsize.range(301, 800);
   }
-  if (!forced_n && (c.fam == COPLANAR || c.fam == COSPHERE) && n > g_slowcap) n = g_slowcap - rpos.below(g_slowcap / 4);
+  if (!forced_n && c.fam != UNIFORM && c.fam != PLATTICE) {
+    const uint64_t cap = (c.fam == WALL) ? g_wallcap : g_slowcap;
+    if (n > cap) n = cap - rpos.below(cap / 4);
+  }
   std::vector< CV > &p = c.pos;
   p.clear();
   char buf[256];
@@ -382,7 +391,9 @@ static void child_main(const Case &c, int ctor, FILE *out) {
   // watchdog: CPU seconds (robust against a loaded machine; ~100x the normal cost), wall clock as a backstop
   {
     const double nk = (double)c.pos.size() / 1000.;
-    const rlim_t lim = (rlim_t)(g_cpu_factor * (20. + 150. * nk * nk)); // normal cost: < 0.6 s up to 900 generators, < 160 s for the worst 2000
+    // >= 8x (linear families) / 15x (quadratic families) the measured normal cost, plus 20 s
+    const bool slow = (c.fam != UNIFORM && c.fam != PLATTICE);
+    const rlim_t lim = (rlim_t)(g_cpu_factor * (20. + (slow ? 600. * nk * nk : 10. * nk)));
     struct rlimit rl;
     rl.rlim_cur = lim;
     rl.rlim_max = lim + 5;
@@ -539,11 +550,12 @@ static void run_grid(const Case &c, int ctor, GridRec &g) {
 //    That documented displacement is granted to the old construction in the local face
 //    clauses only - never in the partition clauses (volume sum, wall area) nor in the
 //    old-vs-new agreement of volumes and centroids.
-//  * areas: 1e-8 relative (stated), negligible faces: area <= 1e-10 * (box volume)^(2/3) (stated).
+//  * areas: 1e-8 relative (stated), negligible faces: area <= 1e-10 * (box volume)^(2/3) (stated); area
+//    differences below that threshold are negligible too (a sliver one cell resolves and its neighbour does not).
 
 struct Geo {
   LD a[3], s[3];
-  LD vbox, ascale, amin, lmax, diag, quantum, eps_old;
+  LD vbox, ascale, amin, lmax, diag, boxsurf, quantum, eps_old;
   std::vector< LD > x; // 3n generators
 };
 
@@ -671,7 +683,9 @@ static bool eval_grid(const Case &c, const Geo &G, const GridRec &g, int ctor, s
         q.slack = std::max(q.slack, old_slack(G, ctor, dist));
       }
     }
-    if (q.h > G.diag) q.h = G.diag; // a cell of a tessellation of the box is not larger than the box (garbage vertices must not widen the tolerances)
+    // a convex cell of a tessellation of the box is not larger than the box: garbage output must not widen the tolerances
+    if (q.h > G.diag) q.h = G.diag;
+    if (q.surf > G.boxsurf) q.surf = G.boxsurf;
     q.dd = q.dmin;
     {
       std::vector< uint32_t > nb;
@@ -741,7 +755,7 @@ static bool eval_grid(const Case &c, const Geo &G, const GridRec &g, int ctor, s
       polygon_metrics(fr, pm, dm);
       if (fr.ngb >= WALL0) {
         wallarea[fr.ngb - WALL0] += fr.area;
-        walltol[fr.ngb - WALL0] += REL_AREA * fr.area + q.t * pm;
+        walltol[fr.ngb - WALL0] += REL_AREA * fr.area + q.t * pm + G.amin;
         // the grid's own wall normal must be the outward normal of that wall
         const double *wn = g.wn[fr.ngb - WALL0];
         if (!(wn[0] == (double)nrm[0] && wn[1] == (double)nrm[1] && wn[2] == (double)nrm[2]))
@@ -782,7 +796,9 @@ static bool eval_grid(const Case &c, const Geo &G, const GridRec &g, int ctor, s
                  fr.ngb >= WALL0 ? "wall" : "bisector", tf, q.h, q.dmin, dist);
       for (int k = 0; k < 3; ++k) asum[k] += fr.area * nrm[k];
       volfaces += fr.area * dist / 3;
-      tolsum += REL_AREA * fr.area + (q.t + q.slack) * pm; // area uncertainty of this face (its edges are cut by the other planes of the cell)
+      // area uncertainty of this face: its edges are cut by the other planes of the cell; a negligible neighbour that one cell
+      // resolves and the other does not changes the area by up to the negligible-face threshold
+      tolsum += REL_AREA * fr.area + (q.t + q.slack) * pm + G.amin;
     }
     if (nreal == 0) { st.inc("cells_with_only_negligible_faces_" + cn); continue; }
     // closed polyhedron: the area vectors sum to zero and the divergence theorem reproduces the volume
@@ -827,13 +843,13 @@ static bool eval_grid(const Case &c, const Geo &G, const GridRec &g, int ctor, s
       polygon_metrics(fr, pm, dm);
       face_plane(G, n, i, fr.ngb, nrm, dist);
       const LD tt = std::max(cg[i].t + cg[i].slack, cg[j].t + cg[j].slack);
-      const LD tol = REL_AREA * fr.area + tt * pm;
+      const LD tol = REL_AREA * fr.area + tt * pm + G.amin; // differences below the negligible-face threshold are negligible
       const LD da = fr.area - aj;
       st.inc("face_pairs_checked_" + cn);
       if (tol > 0) st.maxd("max_pair_area_mismatch_over_tolerance_" + cn, (double)(da / tol));
       if (!(da <= tol)) {
         C15_VIOL("tessellation", ctor, c, "partner", "face %zu->%zu has area %.10g (%.3Lg x box area scale) but the twin %zu->%zu %s area %.10Lg: mismatch %.3Lg > "
-                 "tolerance %.3Lg (1e-8 rel + position tolerance %.3Lg x perimeter %.3Lg)", i, j, fr.area, (LD)fr.area / G.ascale, j, i,
+                 "tolerance %.3Lg (1e-8 rel + position tolerance %.3Lg x perimeter %.3Lg + negligible area)", i, j, fr.area, (LD)fr.area / G.ascale, j, i,
                  tw ? "has" : "is missing,", aj, da, tol, tt, pm);
         continue;
       }
@@ -912,7 +928,7 @@ static void compare(const Case &c, const Geo &G, const GridRec &gn, const GridRe
         LD pm, dm, nrm[3], dist = 0;
         polygon_metrics(fr, pm, dm);
         if (!face_plane(G, n, i, fr.ngb, nrm, dist)) continue; // reported by the faces clause
-        const LD tol = REL_AREA * fr.area + (t + cgo[i].slack) * pm;
+        const LD tol = REL_AREA * fr.area + (t + cgo[i].slack) * pm + G.amin;
         st.inc("faces_compared_old_new");
         if (!((LD)fr.area - ao <= tol))
           C15_VIOL("agree", 2, c, "agree-neighbours", "cell %zu neighbour %#x: face area %.10g in the %s grid, %.10Lg%s in the %s grid (tolerance %.3Lg; %.3Lg x "
@@ -934,13 +950,13 @@ struct Pinned {
 };
 static const Pinned PINNED[] = {
     // seed, case, family, regime, n, aspect, xparam (-1 / 0: as drawn for that seed and case with --stride 16)
-    {600005, 25, -1, -1, 0, 0., 0., "4 generators next to the walls: the new construction never returns"},
-    {600006, 7, -1, -1, 0, 0., 0., "5 generators, some next to a wall: new construction, volumes do not sum to the box"},
+    {31, 11, WALL, -1, 12, 0., 0., "12 generators next to the walls: the new construction never returns"},
+    {31, 1, WALL, -1, 12, 0., 0., "12 generators, some next to a wall: new construction, volumes do not sum to the box"},
     {600008, 12, -1, -1, 0, 0., 0., "bcc lattice 3x3x3 (54 generators): new construction returns invalid cells"},
     {3, 1, PLATTICE, 0, 216, 100., 0., "6x6x6 lattice perturbed by 7e-8 spacings in a 1:100 box: new construction, twin faces differ"},
     {3, 30, PLATTICE, 0, 216, 100., 0., "6x6x6 lattice perturbed by ~1e-8 spacings in a 1:100 box: new construction never returns"},
     {600002, 38, -1, -1, 0, 0., 0., "75 generators in tight blobs: old construction segfaults"},
-    {600015, 34, -1, -1, 0, 0., 0., "71 generators, some next to a wall: old construction segfaults"},
+    {300016, 3, -1, -1, 245, 0., 0., "245 generators next to the walls of a 1:68 box: old construction segfaults"},
     {600008, 35, -1, -1, 0, 0., 0., "64 generators in tight blobs: old construction, twin faces differ"},
     {600003, 8, -1, -1, 0, 0., 0., "2x2x2 lattice perturbed by ~1e-8 spacings: old construction, volumes do not sum to the box"},
     {600006, 32, -1, -1, 0, 0., 0., "234 uniform generators in an elongated box: old construction, volumes do not sum to the box"},
@@ -965,10 +981,13 @@ int main(int argc, char **argv) {
   g_verbose = vh::arg_flag(argc, argv, "--verbose") || only >= 0;
   g_nofork = vh::arg_flag(argc, argv, "--nofork");
   g_xparam = vh::arg_f(argc, argv, "--xparam", 0.);
+  g_selftest = (int)vh::arg_u64(argc, argv, "--selftest", 0);
+  const int onlyfam = (int)(int64_t)vh::arg_u64(argc, argv, "--onlyfam", (uint64_t)-1);
   uint64_t stride = vh::arg_u64(argc, argv, "--stride", 16); // number of shards of the run
   if (stride < 1) stride = 1;
   if (vh::arg_flag(argc, argv, "--pinned-count")) { std::printf("%zu\n", NPINNED); return 0; }
   g_slowcap = vh::arg_u64(argc, argv, "--slowcap", 400);
+  g_wallcap = vh::arg_u64(argc, argv, "--wallcap", 150);
   g_cpu_factor = vh::arg_f(argc, argv, "--cpufactor", 1.);
   // pinned witnesses: fixed generator sets (fixed seed/case/family/regime/size/aspect/parameter) that are part of every
   // run, so that the findings they witness are reported under the same keys whatever VERIF_SEED is.
@@ -986,6 +1005,7 @@ int main(int argc, char **argv) {
 
   for (uint64_t id = 0; id < ngrids; ++id) {
     if (only >= 0 && (int64_t)id != only) continue;
+    if (onlyfam >= 0 && forced_fam < 0 && (int)((id * stride + seed % stride) % NFAM) != onlyfam) continue; // debugging aid
     Case c;
     make_case(c, id, id * stride + seed % stride, master.fork(id), forced_n, forced_fam, forced_reg, forced_aspect);
     if (pinned >= 0) c.sub += std::string("; pinned witness ") + std::to_string(pinned) + ": " + PINNED[pinned].what;
@@ -1017,6 +1037,7 @@ int main(int argc, char **argv) {
     G.amin = 1e-10L * G.ascale;
     G.lmax = smax;
     G.diag = sqrtl(G.s[0] * G.s[0] + G.s[1] * G.s[1] + G.s[2] * G.s[2]);
+    G.boxsurf = 2 * (G.s[0] * G.s[1] + G.s[1] * G.s[2] + G.s[2] * G.s[0]);
     G.quantum = 2.220446049250313e-16L * std::max(mag, (LD)smax);
     G.eps_old = (LD)OLDVORONOI_TOLERANCE * (G.s[0] * G.s[0] + G.s[1] * G.s[1] + G.s[2] * G.s[2]);
     G.x.resize(3 * n);
@@ -1064,6 +1085,21 @@ int main(int argc, char **argv) {
       }
       st.inc(std::string("grids_built_") + CTOR[ctor] + "_" + FAMNAME[fam]);
       if (c.worksize > 1 && n > 100) st.inc(std::string("grids_built_multijob_threaded_") + CTOR[ctor]);
+      if (g_selftest && ctor == 0 && g.cells.size() >= 2) {
+        // the oracle must notice each of these corruptions of an otherwise valid answer
+        size_t big = 0, bf = 0;
+        for (size_t i = 0; i < n; ++i) if (g.cells[i].vol > g.cells[big].vol) big = i;
+        CellRec &cl = g.cells[big];
+        for (size_t f = 0; f < cl.faces.size(); ++f) if (cl.faces[f].area > cl.faces[bf].area) bf = f;
+        if (g_selftest == 1) cl.vol *= 1. + 3e-10 * (double)n;                                  // volume sum / volume-faces
+        if (g_selftest == 2) cl.faces.erase(cl.faces.begin() + (long)bf);                       // missing face: twin, closure
+        if (g_selftest == 3) cl.faces[bf].area *= 1. + 1e-6;                                    // area: twin
+        if (g_selftest == 4) for (int k = 0; k < 3; ++k) cl.faces[bf].mid[k] += 1e-6 * c.s[k];  // midpoint off the plane
+        if (g_selftest == 5 && !g.idx.empty()) g.idx[g.idx.size() / 2] = (g.idx[g.idx.size() / 2] + 1) % (uint32_t)n; // locate
+        if (g_selftest == 6) cl.vol = -cl.vol;                                                  // negative volume
+        if (g_selftest == 7) for (int k = 0; k < 3; ++k) cl.cen[k] += 1e-6 * c.s[k];            // centroid: old vs new
+        if (g_selftest == 8) cl.faces[bf].ngb = (uint32_t)big;                                  // face towards itself
+      }
       const uint64_t before = g_all_viol;
       eval_grid(c, G, g, ctor, cg[ctor]);
       have[ctor] = (g_all_viol == before); // only valid tessellations are compared with each other
